@@ -273,7 +273,10 @@ def collect_sinks(taint, skip_fn=lambda f: False):
                     elif k in ("DivisionByZero", "RemainderByZero"):
                         # the message carries the dividend; the divisor is the operand compared with 0 in the condition
                         c = core(o.operand(t["cond"], (bi, "term")))
-                        ops = [c[2] if (c[0] == "bin" and c[1] == "Eq" and is_const(core(c[3]))) else (c[3] if c[0] == "bin" and c[1] == "Eq" else o.operand(m["a"], (bi, "term")))]
+                        if is_const(c):
+                            ops = [c]   # `x % 4096`: the comparison with 0 was folded, the divisor is a non-zero constant
+                        else:
+                            ops = [c[2] if (c[0] == "bin" and c[1] == "Eq" and is_const(core(c[3]))) else (c[3] if c[0] == "bin" and c[1] == "Eq" else o.operand(m["a"], (bi, "term")))]
                         out.append(Sink(f, b, bi, k, ops, b.where(bi), "%s(divisor %s)" % (k, show(ops[0])[:80]), t.get("exp")))
                     elif k in ("OverflowNeg",):
                         ops = [o.operand(m["a"], (bi, "term"))]
